@@ -85,7 +85,7 @@ class RpcWorld(World):
             "uuid4 (seeded)"]
     PROBES = ["retry_taken", "seq_wrap", "stale_rejected", "reconnect_after_release", "late_reply_discarded",
               "oneway_then_call", "recovered_after_failure", "remote_exception", "batch", "stream_item", "attr",
-              "comm_error", "timeout_error", "stream_exhausted", "bystander", "retry_budget_changed"]
+              "comm_error", "timeout_error", "stream_exhausted", "bystander", "retry_budget_changed", "client_annotations"]
     RULE = ("plan = (server type, serializer, compression, MAX_RETRIES, proxy timeout, initial sequence number, 3-12 calls, "
             "<= 6 message-level faults keyed by INVOKE ordinal / handshake ordinal, fragmentation; in 20% of the plans some calls "
             "first change the proxy's retry budget (_pyroMaxRetries); 25% of the plans run a second client with its own proxy, "
@@ -135,6 +135,8 @@ class RpcWorld(World):
                 "seq0": rng.choice([0, 0, 65533, 65534, 65535]), "calls": calls, "faults": faults,
                 "net": {"p_frag": rng.choice([0.0, 0.0, 0.3, 0.8]), "rst_discards_rx": rng.random() < 0.5},
                 "p_block": rng.choice([0.0, 0.0, 0.2, 0.6])}
+        if rng.random() < 0.3:
+            plan["client_ann"] = True       # the client attaches an annotation of its own to every request
         if rng.random() < 0.25:
             # a second client with a proxy of its own calls concurrently and is never touched by the middlebox: on the thread
             # server two workers then decode requests and encode replies at the same time (line pre-emption inside the serializers)
@@ -340,6 +342,10 @@ class RpcWorld(World):
             return rec
 
         def client():
+            if plan.get("client_ann"):
+                from Pyro5.callcontext import current_context as cctx
+                cctx.annotations = {"RPCA": b"client-annotation"}
+                ctx.probe("client_annotations")
             p = CL.Proxy(uri)
             p._pyroTimeout = plan["timeout"]
             p._pyroSeq = plan["seq0"]
